@@ -3,6 +3,7 @@ import TaurexModel.Interp
 import TaurexModel.Loaders
 import TaurexModel.Sanitize
 import TaurexModel.CacheSM
+import TaurexModel.CacheConf
 
 namespace Taurex.Ops.C14
 open Taurex.Proto Taurex.Interp Taurex.Loaders Taurex.Sanitize Taurex.CacheSM
@@ -76,6 +77,12 @@ def stemOp (args : List String) : Option String :=
   run (do
     let fname ← str
     pure (fS (String.ofList (stem fname.toList)))) args
+
+/-- `c14.partners pair` → `pairOne pairTwo` (the collision partners of a CIA pair name) -/
+def partnersOp (args : List String) : Option String :=
+  run (do
+    let pair ← str
+    pure s!"{fS (String.ofList (pairOne pair.toList))} {fS (String.ofList (pairTwo pair.toList))}") args
 
 /-- `c14.unit fallback name` → optional factor -/
 def unitOp (args : List String) : Option String :=
@@ -257,6 +264,22 @@ def copP : P COp := do
   | 5 => do let m ← str; let k ← nat; pure (.add m k)
   | _ => failure
 
+/-- events of `CacheConf.XOp`: the codes 0-5 are the cache's own operations (`copP`); 6 = `set_interpolation(None)`,
+    7 = the path key of GlobalCache set to None, 8 = a parameter file set up (`optOf nat` path, `optOf nat` mode, `optOf bool`) -/
+def xopP : P XOp := do
+  let c ← nat
+  match c with
+  | 0 => do let m ← str; pure (.base (.get m))
+  | 1 => do let p ← nat; pure (.base (.setPath p))
+  | 2 => do let k ← nat; pure (.base (.setInterp k))
+  | 3 => do let b ← bool; pure (.base (.setMem b))
+  | 4 => pure (.base .clear)
+  | 5 => do let m ← str; let k ← nat; pure (.base (.add m k))
+  | 6 => pure .unsetInterp
+  | 7 => pure .unsetPath
+  | 8 => do let p ← optOf nat; let k ← optOf nat; let b ← optOf bool; pure (.parfile p k b)
+  | _ => failure
+
 def fResp : Resp → String
   | .served o =>
     let im := match o.inMem with | none => "0" | some false => "1" | some true => "2"
@@ -266,34 +289,35 @@ def fResp : Resp → String
   | .notADir => "3"
 
 /-- responses with, after each step, the number of loads so far and the keys of the dictionary -/
-def traceOut (fs : List Dir) : CSt → List COp → List String
+def traceOut (fs : List Dir) : CSt → List XOp → List String
   | _, [] => []
   | s, op :: ops =>
-    let r := step fs s op
+    let r := stepX fs s op
     s!"{fResp r.2} {r.1.log.length} {fList fS (r.1.dict.map (·.1))}" :: traceOut fs r.1 ops
 
-/-- `c14.cache fs ops` → per step: response, #loads, dict keys; then the load log -/
+/-- `c14.cache fs ops` → per step: response, #loads, dict keys; then the load log (`CacheConf.stepX`: the cache's own
+    operations are `CacheSM.step`) -/
 def cacheOp (args : List String) : Option String :=
   run (do
     let fs ← listOf dirP
-    let ops ← listOf copP
-    let fin := CacheSM.run fs CacheSM.init ops
+    let ops ← listOf xopP
+    let fin := CacheSM.runX fs CacheSM.init ops
     let steps := traceOut fs CacheSM.init ops
     pure s!"{fList id steps} {fList (fun (e : String × Nat) => s!"{fS e.1} {e.2}") fin.log}") args
 
 /-- as `traceOut`, on the k-table cache (`stepK`) -/
-def traceOutK (fs : List Dir) : CSt → List COp → List String
+def traceOutK (fs : List Dir) : CSt → List XOp → List String
   | _, [] => []
   | s, op :: ops =>
-    let r := stepK fs s op
+    let r := stepXK fs s op
     s!"{fResp r.2} {r.1.log.length} {fList fS (r.1.dict.map (·.1))}" :: traceOutK fs r.1 ops
 
-/-- `c14.kcache fs ops`: a history of the k-table cache -/
+/-- `c14.kcache fs ops`: a history of the k-table cache (`CacheConf.stepXK`; the cache's own operations are `CacheSM.stepK`) -/
 def kcacheOp (args : List String) : Option String :=
   run (do
     let fs ← listOf dirP
-    let ops ← listOf copP
-    let fin := CacheSM.runK fs CacheSM.init ops
+    let ops ← listOf xopP
+    let fin := CacheSM.runXK fs CacheSM.init ops
     let steps := traceOutK fs CacheSM.init ops
     pure s!"{fList id steps} {fList (fun (e : String × Nat) => s!"{fS e.1} {e.2}") fin.log}") args
 
@@ -343,7 +367,7 @@ def ciaCacheOp (args : List String) : Option String :=
     pure s!"{fList id steps} {fList (fun (e : String × Nat) => s!"{fS e.1} {e.2}") fin.log}") args
 
 def ops : List Op :=
-  [("c14.sanitize", sanitizeOp), ("c14.names", namesOp), ("c14.stem", stemOp), ("c14.unit", unitOp),
+  [("c14.sanitize", sanitizeOp), ("c14.names", namesOp), ("c14.stem", stemOp), ("c14.partners", partnersOp), ("c14.unit", unitOp),
    ("c14.dec_pickle", decPickleOp), ("c14.dec_hdf", decHdfOp), ("c14.dec_exo", decExoOp),
    ("c14.enc_pickle", encPickleOp), ("c14.enc_hdf", encHdfOp), ("c14.enc_exo", encExoOp),
    ("c14.dec_kpickle", decPickleKOp), ("c14.dec_khdf", decHdfKOp),
